@@ -81,6 +81,12 @@ class Session:
         rep = self.ck.driver([ctx] + ops)
         if 'ok' not in rep[0]:
             raise RuntimeError('rt.ctx refused: %r' % (rep[0],))
+        # the theorems assume envWF; it must hold of every environment an accepted spec produces
+        self.ck.case(('envwf', id(self)), nontrivial=False)
+        if rep[0].get('envWF'):
+            self.ck.agree('rt.envwf')
+        else:
+            self.ck.disagree('rt.envwf', {'specs': [p for p, _ in self.specs]}, 'accepted by the compiler', rep[0].get('notWF'))
         return rep[1:]
 
     # ---- real side ----------------------------------------------------------------------------
